@@ -40,6 +40,20 @@
 //	                            definition is given in targets.json (TRUSTED, printed in the generated file under the
 //	                            word EXTERN) together with the Go source text it was written for; a change of that
 //	                            source text is a translation error (the extern must be re-validated by hand).
+//	methods with a struct receiver (f *framer) → a function from the receiver fields the body uses (f.buf → f_buf; directly
+//	                            or through a callee) to the fields it assigns, followed by the Go results. A call
+//	                            `f.M(args)` / `x := f.M(args)` of such a method on the same receiver is accepted as a
+//	                            statement or as the sole right-hand side only and rebinds the assigned fields. A struct
+//	                            PARAMETER is passed as the fields the body reads (info.proto → info_proto).
+//	panic(…)                  → a function that contains a panic statement (or calls a translated function that does)
+//	                            returns Option: panic = none, return e = some e, a call of such a function is
+//	                            `match … with | none => none | some … => rest`; refused inside loops and switches.
+//	error                     → Bool "is non-nil": nil = false; fmt.Errorf(…), errors.New(…) and the functions listed
+//	                            as "nonnil_error" externs (pinned to their source text) = true, arguments not translated.
+//	string                    → the list of its bytes (len, s[i], append(b, s...), string(b), []byte(s)); range over a
+//	                            string (runes) is refused; a constant string is the list of its bytes.
+//	if with a return / panic anywhere inside an arm → the rest of the block is duplicated into both arms.
+//	nil slices are the empty list (x == nil on a slice is refused).
 //	"segments": a consecutive run of statements of a function, translated as a function of the variables it reads
 //	to the variables it assigns (or to its return value).
 package main
